@@ -96,6 +96,7 @@ def _light(case):
 
 def oracle(case):
     """Evaluate the property itself on the real code along the run of `case`; dict = failing step."""
+    case = {k: v for k, v in case.items() if k != "at_step"}
     recs = G.run_real(case)
     f, grad, prox = G.np_problem(case)
     pol = case["policy"]
@@ -181,6 +182,59 @@ def oracle(case):
     return None
 
 
+def oracle_memory(case):
+    """Is the memory of a BB policy stale after call `at_step`?  Observable form of the property: probe the policy
+    object with one more call at v' = v + d along a direction of positive curvature and compare with the documented
+    ratio <dg,dg>/<dx,dg> of (v, v') (adaptive BB: the stored Lbb1 = <dx,dg>/<dx,dx>)."""
+    import scico.numpy as snp
+
+    at = case.get("at_step")
+    if at is None or case["policy"]["kind"] not in ("bb", "abb"):
+        return oracle({k: v for k, v in case.items() if k != "at_step"})
+    c = {k: v for k, v in case.items() if k != "at_step"}
+    c["steps"] = at + 1
+    s, pol = G.make_solver(c)
+    args = []
+    orig = pol.update
+
+    def wrap(v):
+        args.append(v)
+        return orig(v)
+
+    pol.update = wrap
+    try:
+        for _ in range(at + 1):
+            s.step()
+    except Exception:  # noqa: BLE001
+        return None
+    pol.update = orig
+    v = args[-1]
+    Q = np.asarray(case["Q"], dtype=np.float64)
+    n2 = Q.shape[0]
+    cands = [np.eye(n2)[i] for i in range(n2)] + [np.ones(n2), np.arange(1, n2 + 1, dtype=np.float64)]
+    for d in cands:
+        curv = float(d @ Q @ d)
+        if curv <= 1e-9:
+            continue
+        dd = d[: n2 // 2] + 1j * d[n2 // 2:] if case["complex"] else d
+        vp = v + snp.array(dd)
+        L = float(np.asarray(pol.update(vp)))
+        Qd = Q @ d
+        want = float(Qd @ Qd) / curv
+        if case["policy"]["kind"] == "bb":
+            if not common.close(L, want, 16, 1e-9):
+                return {"why": "BB: a probing call after this step does not return the documented ratio of (v, v+d): memory is stale",
+                        "after_step": at, "d": d.tolist(), "L": L, "documented_ratio": want}
+        else:
+            l1 = float(np.asarray(pol.Lbb1prev)) if pol.Lbb1prev is not None else None
+            want1 = curv / float(d @ d)
+            if l1 is None or not common.close(l1, want1, 16, 1e-9):
+                return {"why": "adaptive BB: a probing call after this step does not store the documented Lbb1 of (v, v+d): memory is stale",
+                        "after_step": at, "d": d.tolist(), "Lbb1": l1, "documented": want1}
+        return None
+    return None
+
+
 # --------------------------------------------------------------------------
 # correspondence on one trajectory
 
@@ -202,9 +256,12 @@ def check_case(ctx, model, case, origin="gen"):
     def bad(op, i, impl, mod, known=None, note=""):
         nonlocal nbad
         nbad += 1
-        ctx.disagree(op, {**light, "at_step": i}, impl, mod, oracle=oracle, known_id=known, note=note)
+        ctx.disagree(op, {**light, "at_step": i}, impl, mod, oracle=oracle_memory if op == "stepsize.memory" else oracle,
+                     known_id=known, note=note)
 
     # ---- fed tie --------------------------------------------------------------
+    carried = (None, None)
+    fallbacks = []
     for i, r in enumerate(recs):
         nt = None if (kind == "base" or r.get("first")) else f"{cid}:{i}"
         ctx.case({"case": cid, "step": i, "policy": pol, "accel": case["accel"], "flavour": case.get("flavour")}, nt)
@@ -228,6 +285,8 @@ def check_case(ctx, model, case, origin="gen"):
             if not _same(L, Lprev):
                 bad("stepsize.base", i, L, Lprev)
         elif kind in ("bb", "abb"):
+            if not r.get("stored_ok", True):
+                bad("stepsize.memory", i, "policy does not remember (v, grad f(v)) of this call", "prev := (v, grad v)")
             if r["first"]:
                 ctx.count("branch:first-call")
                 if not _same(L, Lprev):
@@ -236,18 +295,22 @@ def check_case(ctx, model, case, origin="gen"):
             xx, xg, gg = r["ips"]
             if kind == "bb":
                 m = b2f(model.call("bb", Lprev=f2b(Lprev), xg=f2b(xg), gg=f2b(gg)))
-                ctx.count("branch:bb-ratio" if (_same(m, gg / xg) if xg != 0 else False) else "branch:bb-fallback")
+                took = _same(m, gg / xg) if xg != 0 else False
+                ctx.count("branch:bb-ratio" if took else "branch:bb-fallback")
+                if not took:
+                    fallbacks.append(i)
                 if xg == 0:
                     ctx.count("exact:xg=0,gg>0" if gg > 0 else "exact:xg=0,gg=0")
                 if not _same(L, m):
                     bad("stepsize.bb", i, {"L": L, "ips": r["ips"], "Lprev": Lprev}, {"L": m})
             else:
-                m1, m2 = r["mem"]
+                m1, m2 = carried  # the model's own memory from the previous call (not the policy's attributes)
                 out = model.call("abb", kappa=f2b(pol["kappa"]), Lprev=f2b(Lprev), m1=_optb(m1), m2=_optb(m2),
                                  xx=f2b(xx), xg=f2b(xg), gg=f2b(gg))
                 mL = b2f(out["L"])
                 mm = (None if out["m1"] is None else b2f(out["m1"]), None if out["m2"] is None else b2f(out["m2"]))
                 ia = r["mem_after"]
+                carried = mm
                 ctx.count("branch:abb-mem-" + ("".join("s" if v is not None else "n" for v in (m1, m2))))
                 memok = all((a is None and b is None) or (a is not None and b is not None and _same(a, b)) for a, b in zip(ia, mm))
                 if not _same(L, mL) or not memok:
@@ -280,8 +343,14 @@ def check_case(ctx, model, case, origin="gen"):
                     got = r["Z"] if kind == "rls" else r["x"]
                     if not common.allclose(got, z, None, 1e-8):
                         bad("stepsize.candidate", i, got.tolist(), z.tolist())
+        if kind == "abb" and not r.get("first") and r.get("ips") is not None:
+            xx_, xg_, gg_ = r["ips"]
+            if not (xg_ > 0 and xx_ > 0 and gg_ > 0):
+                fallbacks.append(i)
         if nbad and polluted_at is None:
             polluted_at = i
+    for i in fallbacks:
+        ctx.count("fallback:followed-by>=2-steps" if len(recs) - 1 - i >= 2 else "fallback:near-end")
     # ---- run tie --------------------------------------------------------------
     if nbad:
         return nbad
@@ -373,9 +442,11 @@ def check_stub_histories(ctx, model, n_hist):
         pol = BBStepSize() if kind == "bb" else AdaptiveBBStepSize(kappa=kappa)
         pgm = _StubPGM(float([1.0, 0.5, 4.0][int(rng.integers(0, 3))]))
         pol.internal_init(pgm)
-        steps = int(rng.integers(3, 9))
+        steps = int(rng.integers(4, 10))
         special = rng.integers(0, 3) == 0
         hist = []
+        shadow = None
+        carried = (None, None)
         for i in range(steps):
             def vec():
                 if special:
@@ -383,17 +454,15 @@ def check_stub_histories(ctx, model, n_hist):
                 return common.dyadic(rng, (2,), bits=2, scale=3.0) * (0.0 if rng.integers(0, 5) == 0 else 1.0)
 
             v, g = vec(), vec()
-            first = pol.xprev is None
+            first = shadow is None  # the harness' own copy of the documented memory (previous call), not the policy's
             if not first:
                 with np.errstate(all="ignore"):
-                    dx = snp.array(v) - pol.xprev
-                    dg = snp.array(g) - pol.gradprev
+                    dx = snp.array(v) - snp.array(shadow[0])
+                    dg = snp.array(g) - snp.array(shadow[1])
                     xx = float(snp.real(snp.sum(dx.conj() * dx)))
                     xg = float(snp.real(snp.sum(dx.conj() * dg)))
                     gg = float(snp.real(snp.sum(dg.conj() * dg)))
-            mem = (None, None)
-            if kind == "abb":
-                mem = (None if pol.Lbb1prev is None else float(pol.Lbb1prev), None if pol.Lbb2prev is None else float(pol.Lbb2prev))
+            mem = carried  # the model's memory carried by the harness
             pgm.f.next_grad = snp.array(g)
             Lprev = float(pgm.L)
             L = float(pol.update(snp.array(v)))
@@ -413,12 +482,17 @@ def check_stub_histories(ctx, model, n_hist):
                 mm = (None if out["m1"] is None else b2f(out["m1"]), None if out["m2"] is None else b2f(out["m2"]))
                 ia = (None if pol.Lbb1prev is None else float(pol.Lbb1prev), None if pol.Lbb2prev is None else float(pol.Lbb2prev))
                 memok = all((a is None and b is None) or (a is not None and b is not None and _same(a, b)) for a, b in zip(ia, mm))
+                carried = mm
                 ctx.count("stub:abb-mem-" + "".join("s" if x is not None else "n" for x in ia))
                 if not _same(L, b2f(out["L"])) or not memok:
                     ctx.disagree("stepsize.stub.abb", {**case, "ips": [xx, xg, gg], "mem": mem}, {"L": L, "mem": ia}, {"L": b2f(out["L"]), "mem": mm}, oracle=_oracle_stub)
             if not first and not (math.isfinite(L) and L > 0) and (math.isfinite(Lprev) and Lprev > 0):
                 ctx.violation({"kind": "failing-input", "case": {**case, "ips": [xx, xg, gg]}, "failing": {"why": "returned L is not a finite positive number", "L": L}}, True,
                               "stepsize.stub: property fails on the implementation")
+            stored = pol.xprev is not None and np.array_equal(np.asarray(pol.xprev), v, equal_nan=True) and np.array_equal(np.asarray(pol.gradprev), g, equal_nan=True)
+            if not stored:
+                ctx.disagree("stepsize.stub.memory", case, "policy does not remember (v, grad) of this call", "prev := (v, grad v)", oracle=_oracle_stub_next)
+            shadow = (v, g)
             pgm.L = L  # as PGM.step does
 
 
@@ -447,6 +521,33 @@ def _oracle_stub(case):
     return None
 
 
+def _oracle_stub_next(case):
+    """stale memory shows as a wrong ratio on the next call: replay the recorded history plus one probing call"""
+    if case.get("kind") != "bb":
+        return None
+    import scico.numpy as snp
+    from scico.optimize.pgm import BBStepSize
+
+    pol = BBStepSize()
+    pgm = _StubPGM(1.0)
+    pol.internal_init(pgm)
+    seq = case["history"] + [[case["v"], case["g"]]]
+    # probing call: previous + (1, 0) with gradient difference (2, 0)  ->  documented ratio 2
+    pv = np.asarray(seq[-1][0], dtype=np.float64)
+    pg = np.asarray(seq[-1][1], dtype=np.float64)
+    if not (np.all(np.isfinite(pv)) and np.all(np.isfinite(pg))):
+        return None
+    seq = seq + [[(pv + np.array([1.0, 0.0])).tolist(), (pg + np.array([2.0, 0.0])).tolist()]]
+    L = None
+    for v, g in seq:
+        pgm.f.next_grad = snp.array(np.asarray(g, dtype=np.float64))
+        L = float(pol.update(snp.array(np.asarray(v, dtype=np.float64))))
+        pgm.L = L
+    if not _same(L, 2.0, 1e-9):
+        return {"why": "BB: after this history a step dx=(1,0), dg=(2,0) does not give the documented ratio 2 (stale memory)", "L": L, "calls (v, grad)": seq}
+    return None
+
+
 def _corpus():
     d = common.CORPUS_DIR / PROP
     out = []
@@ -468,9 +569,13 @@ def correspond(ctx, model):
     check_stub_histories(ctx, model, ctx.n(60, 600))
     n = ctx.n(220, 1500)
     for _ in range(n):
-        p = G.gen_problem(ctx.rng)
         pol = G.gen_policy(ctx.rng)
-        case = {**p, "policy": pol, "accel": bool(ctx.rng.integers(0, 2)), "steps": int(ctx.rng.integers(2, 9))}
+        isbb = pol["kind"] in ("bb", "abb")
+        # BB policies: curvature of mixed sign half of the time (fall-backs followed by usable steps), longer runs
+        fl = ["diag-indef", "dense-sym", "complex-herm", "complex-diag"][int(ctx.rng.integers(0, 4))] if (isbb and ctx.rng.integers(0, 2)) else None
+        p = G.gen_problem(ctx.rng, fl)
+        steps = int(ctx.rng.integers(5, 11)) if isbb else int(ctx.rng.integers(2, 9))
+        case = {**p, "policy": pol, "accel": bool(ctx.rng.integers(0, 2)), "steps": steps}
         check_case(ctx, model, case)
 
 
